@@ -866,6 +866,20 @@ impl IntoDeserializer<'_, crate::de::Error> for Value {
 
 struct ValueSerializer;
 
+/// Only a field that is `None` itself may be left out; a `None` behind a wrapper (`Some(None)`,
+/// a newtype around `None`) has no spelling.  Do not let an enclosing table mistake it for a
+/// `None` field and silently drop the whole entry.
+fn nested_none_is_an_error(
+    result: Result<Value, crate::ser::Error>,
+) -> Result<Value, crate::ser::Error> {
+    match result {
+        Err(crate::ser::Error {
+            inner: crate::edit::ser::Error::UnsupportedNone,
+        }) => Err(ser::Error::custom("unsupported None value")),
+        other => other,
+    }
+}
+
 impl ser::Serializer for ValueSerializer {
     type Ok = Value;
     type Error = crate::ser::Error;
@@ -970,7 +984,7 @@ impl ser::Serializer for ValueSerializer {
     where
         T: ser::Serialize + ?Sized,
     {
-        value.serialize(self)
+        nested_none_is_an_error(value.serialize(self))
     }
 
     fn serialize_newtype_variant<T>(
@@ -983,7 +997,7 @@ impl ser::Serializer for ValueSerializer {
     where
         T: ser::Serialize + ?Sized,
     {
-        let value = value.serialize(ValueSerializer)?;
+        let value = nested_none_is_an_error(value.serialize(ValueSerializer))?;
         let mut table = Table::new();
         table.insert(variant.to_owned(), value);
         Ok(table.into())
@@ -997,7 +1011,7 @@ impl ser::Serializer for ValueSerializer {
     where
         T: ser::Serialize + ?Sized,
     {
-        value.serialize(self)
+        nested_none_is_an_error(value.serialize(self))
     }
 
     fn serialize_seq(self, len: Option<usize>) -> Result<Self::SerializeSeq, crate::ser::Error> {
